@@ -9,6 +9,7 @@ dictionary `PrepareFlush`.
 -/
 import LinVerif.Lemmas.C07Resolve
 import LinVerif.Lemmas.C07Replay
+import LinVerif.Lemmas.C07Lanes
 import LinVerif.Generated.C07
 
 namespace LinVerif.Props.C07
@@ -191,6 +192,74 @@ theorem replay_complete (cfg : Cfg) (hx : cfg.ignoreExact = true) (hc : cfg.atom
     ∃ r, Stored (run cfg (run cfg St.init evs) (rounds n)) r ∧ r.seq = s ∧ r.metric = m ∧ r.tagv = t :=
   replay_complete_partial cfg hx evs (gapFree_init cfg hc evs) n hr hn hw hd s m t h0 hs
 
+/-- The durably stored sequence never decreases (whatever order `Flush` / `Close` flush the pending
+memory databases in: the older, frozen one is always committed before the mutable one can be frozen). -/
+theorem stored_never_decreases (cfg : Cfg) (hx : cfg.ignoreExact = true) (evs : List Ev)
+    (hg : GapFree cfg St.init evs) (e : Ev) :
+    ov (run cfg St.init evs).stored ≤ ov (step cfg (run cfg St.init evs) e).stored := by
+  have hi := inv_run cfg hx evs hg inv_init
+  generalize run cfg St.init evs = st at hi
+  have hsame : ∀ st' : St, st'.stored = st.stored → ov st.stored ≤ ov st'.stored := by
+    intro st' h; rw [h]; exact Int.le_refl _
+  have hif : ∀ (c : Prop) [Decidable c] (a : St), a.stored = st.stored →
+      ov st.stored ≤ ov (if c then a else st).stored := by
+    intro c _ a h; split
+    · exact hsame a h
+    · exact Int.le_refl _
+  cases e <;> simp only [step, whenRunning]
+  case crash => exact hsame _ rfl
+  case recover =>
+    apply hif
+    unfold doRecover; split
+    · rfl
+    · rw [ackOpt_eq]
+  case rewind => exact hif _ _ rfl
+  case append m t => apply hif; split <;> rfl
+  case appendBad => apply hif; split <;> rfl
+  case foreignWrite m t => apply hif; simp
+  case applyBegin =>
+    apply hif; split
+    · rfl
+    · unfold doApplyBegin beginAt ignoreMsg ackTo; (repeat' split) <;> rfl
+  case applyTake => apply hif; unfold doApplyTake; (repeat' split) <;> rfl
+  case applyAcquire => apply hif; unfold doApplyAcquire; (repeat' split) <;> rfl
+  case applyWrite =>
+    apply hif; unfold doApplyWrite; split
+    · split
+      · rfl
+      · simp only [addNames_stored]; unfold putRow; (repeat' split) <;> rfl
+    · rfl
+  case applyCommit => apply hif; unfold doApplyCommit; (repeat' split) <;> rfl
+  case metaPrepare => exact hif _ _ rfl
+  case metaFlushMetric => exact hif _ _ rfl
+  case metaFlushTagv => exact hif _ _ rfl
+  case indexPrepare => exact hif _ _ rfl
+  case indexFlush => exact hif _ _ rfl
+  case freeze => apply hif; unfold doFreeze; (repeat' split) <;> rfl
+  case ackCallback =>
+    apply hif; unfold doAckCallback; split
+    · split
+      · rw [ackOpt_eq]
+      · rfl
+    · rfl
+  case logGC k => apply hif; unfold doLogGC; (repeat' split) <;> rfl
+  case walExpire => apply hif; unfold doWalExpire; (repeat' split) <;> rfl
+  case dataCommit =>
+    split
+    · unfold doDataCommit
+      split
+      case h_2 => exact Int.le_refl _
+      case h_1 fz hfz =>
+        split
+        · exact Int.le_refl _
+        · have h2 := (hi.fz_capt fz hfz).2
+          show ov st.stored ≤ ov (newStored fz.captured st.stored)
+          unfold newStored
+          cases hcap : fz.captured with
+          | some x => simp only [hcap, ov, Option.getD_some] at h2 ⊢; exact h2
+          | none => exact Int.le_refl _
+    · exact Int.le_refl _
+
 /-- The recovered family rejects every sequence at or below the recovered (persisted) one. -/
 theorem recovered_rejects_persisted (cfg : Cfg) (st : St) (hd : st.phase = .down)
     (x s : Int) (hx : st.stored = some x) (hs : s ≤ x) :
@@ -202,6 +271,58 @@ theorem recovered_rejects_persisted (cfg : Cfg) (st : St) (hd : st.phase = .down
     · rw [ackOpt_eq]; simpa using hx
   simp [validSeq, this]; omega
 
+
+/-! ### per leader
+
+The family's sequence maps are keyed by the leader id, and every leader's writes come through their
+own log partition. A node is a list of lanes (`Node`), one per leader; `stepNode` sends a partition
+event to its lane (the other lanes see the written row as a foreign row of the shared family) and a
+family / process event to all lanes. Every lane is a reachable state of the single-lane model, so
+the statements above hold for EVERY leader of EVERY node history. -/
+
+theorem no_loss_per_leader (cfg : Cfg) (hx : cfg.ignoreExact = true) (hc : cfg.atomicAcquire = true)
+    (leaders : List Nat) (nevs : List NEv) (l : Nat) (st : St)
+    (hl : (l, st) ∈ runNode cfg (Node.init leaders) nevs) (s : Int) (m t : Nat)
+    (h0 : 0 ≤ s) (hs : st.log[s.toNat]? = some (some (m, t))) :
+    (∃ r ∈ fileRows st, r.seq = s ∧ r.metric = m ∧ r.tagv = t) ∨
+    (st.groupAck < s ∧ st.gcLow ≤ s ∧ st.walGone = false) := by
+  obtain ⟨evs, he⟩ := lanes_run cfg nevs (lanes_init cfg leaders) (l, st) hl
+  simp only [] at he
+  subst he
+  exact no_loss cfg hx hc evs s m t h0 hs
+
+theorem no_replay_below_per_leader (cfg : Cfg) (hx : cfg.ignoreExact = true) (hc : cfg.atomicAcquire = true)
+    (leaders : List Nat) (nevs : List NEv) (l : Nat) (st : St)
+    (hl : (l, st) ∈ runNode cfg (Node.init leaders) nevs) (fl : InFlight) (h : st.inflight = some fl) :
+    ov st.stored < fl.seq := by
+  obtain ⟨evs, he⟩ := lanes_run cfg nevs (lanes_init cfg leaders) (l, st) hl
+  simp only [] at he
+  subst he
+  exact no_replay_below cfg hx hc evs fl h
+
+theorem ack_le_stored_per_leader (cfg : Cfg) (hx : cfg.ignoreExact = true) (hc : cfg.atomicAcquire = true)
+    (leaders : List Nat) (nevs : List NEv) (l : Nat) (st : St)
+    (hl : (l, st) ∈ runNode cfg (Node.init leaders) nevs) (s : Int) (h0 : 0 ≤ s) (hs : s ≤ st.groupAck) :
+    s ≤ ov st.stored ∨ Bad st s := by
+  obtain ⟨evs, he⟩ := lanes_run cfg nevs (lanes_init cfg leaders) (l, st) hl
+  simp only [] at he
+  subst he
+  exact ack_le_stored cfg hx hc evs s h0 hs
+
+/-- non-vacuity: a node that is leader 1 and follower of leader 2 for the same family: both logs are
+applied into the shared memory database, one flush stores and acknowledges both sequences, a crash
+leaves each leader's unflushed entry to be replayed from ITS log under ITS sequence -/
+def twoLeaderTrace : List NEv :=
+  [.lane 1 (.append 0 0)] ++ applyRound.map (NEv.lane 1) ++
+  [.lane 2 (.append 5 5), .lane 2 (.append 6 6)] ++ applyRound.map (NEv.lane 2) ++ applyRound.map (NEv.lane 2) ++
+  flushRound.map NEv.shared ++
+  [.lane 1 (.append 1 1)] ++ applyRound.map (NEv.lane 1) ++
+  [.shared .crash, .shared .recover, .shared .rewind]
+
+example :
+    ((runNode ⟨true, true, true⟩ (Node.init [1, 2]) twoLeaderTrace).map
+      (fun p => (p.1, p.2.stored, p.2.groupAck, p.2.consumed, (fileRows p.2).length, p.2.log.length))) =
+    [(1, some 0, 0, 0, 1, 2), (2, some 1, 1, 1, 2, 2)] := by decide
 
 /-! ### flushed data resolves through the recovered dictionaries
 
@@ -369,6 +490,27 @@ theorem wal_gc_predicate :
       = ["log.IsExpire", "log.Stop", "log.Close", "removeDirFn", "removeDirFn"] ∧
     walRecoveryCalls.filter (fun s => s ∈ ["w.GetOrCreatePartition", "partition.recovery"])
       = ["w.GetOrCreatePartition", "partition.recovery"] := by decide
+
+open LinVerif.Generated.C07 in
+/-- `dataFamily.Close` flushes a pending IMMUTABLE memory database (older entries, the sequences
+captured when it was frozen) BEFORE the mutable one (newer entries, the current sequences) — the order
+in which the model's `dataCommit` of a frozen memdb necessarily precedes the next `freeze` — and
+`Flush` passes the sequences it captured in the critical section of the switch -/
+theorem close_flushes_older_first :
+    closeFlushArgs = ["f.immutableSeq, f.immutableMemDB", "sequences, f.mutableMemDB"] ∧
+    flushFlushArgs = ["immutableSeq, waitingFlushMemDB"] := by decide
+
+open LinVerif.Generated.C07 in
+/-- the leader id on the recovery path is the LOG DIRECTORY's leader all the way down: partition key,
+`partition.recovery`, `buildReplica`, `ReplicaState.Leader`, `localReplicator.leader`, and the key of
+the family's sequence maps in `ValidateSequence` / `CommitSequence` / `AckSequence` -/
+theorem recovery_keeps_the_logs_leader :
+    walRecoveryPartitionArgs = ["models.ParseShardID(shard), familyTime, models.ParseNodeID(leader)"] ∧
+    walRecoveryLeaderArgs = ["models.ParseNodeID(leader)"] ∧
+    partitionRecoveryBuildArgs = ["leader, models.ParseNodeID(replica)"] ∧
+    buildReplicaStateLeader = ["leader"] ∧
+    localReplicatorLeader = ["int32(channel.State.Leader)"] ∧
+    localReplicaLeaderArgs = ["r.leader, sequence", "r.leader, sequence", "lr.leader, func"] := by decide
 
 /-- the configuration the driver runs the model with: the PrepareFlush shape found in /repo -/
 def codeCfg : Cfg :=
